@@ -16,7 +16,7 @@ LEVELS = {
     "C05": "model_checking", "C06": "model_checking", "C07": "model_checking", "C08": "model_checking",
     "C09": "model_checking", "C10": "exploration", "C11": "exploration", "C12": "exploration",
     "C13": "model_checking", "C14": "model_checking", "C15": "model_checking", "C16": "model_checking",
-    "C17": "model_checking", "C18": "translation_validation",
+    "C17": "model_checking", "C18": "translation_validation", "GROWTH": "model_checking",
 }
 
 
